@@ -53,9 +53,9 @@ def random_schedule(rng, n):
         if r < 0.10:
             ops.append({'op': 'block', 'touch': rng.random() < 0.6})
         elif r < 0.15:
-            ops.append({'op': 'reorg', 'touch': rng.random() < 0.6})
+            ops.append({'op': 'reorg', 'touch': rng.random() < 0.6, 'back': rng.random() < 0.5})
         elif r < 0.20:
-            ops.append({'op': 'fork2'})
+            ops.append({'op': 'fork2', 'back': rng.random() < 0.5})
         elif r < 0.30:
             ops.append({'op': 'mempool'})
         elif r < 0.40:
@@ -90,6 +90,16 @@ def check(pid, tier, seed):
         if not res.violated:
             raise MachineryError('Client.tla with Variant="orig" shows no violation: the model lost its teeth')
         out.notes.append(f'Client.tla Variant="orig" (code before fix 1f88a96) violates {res.violated} as expected')
+        sc.write('CN.cfg', cfg(1, 3, 2, 'narrowms', False))
+        res = run_tlc(sc, 'Client', 'CN.cfg', timeout=900)
+        if not res.violated:
+            raise MachineryError('Client.tla with Variant="narrowms" shows no violation: the model lost its teeth')
+        out.notes.append(f'Client.tla Variant="narrowms" (mempool_statuses kept only while the flag is set) violates {res.violated} as expected')
+        sc.write('CE.cfg', cfg(1, 3, 2, 'earlyinval', False))
+        res = run_tlc(sc, 'Client', 'CE.cfg', timeout=900)
+        if not res.violated:
+            raise MachineryError('Client.tla with Variant="earlyinval" shows no violation: the model lost its teeth')
+        out.notes.append(f'Client.tla Variant="earlyinval" (cache invalidated before the header refresh is awaited) violates {res.violated} as expected')
         sc.write('CX.cfg', cfg(1, 3, 2, 'fixed', True))
         res = run_tlc(sc, 'Client', 'CX.cfg', workers=8, timeout=1800)
         scns = {json.dumps(e, sort_keys=True): e for e in res.printed('SCN')}
@@ -98,7 +108,50 @@ def check(pid, tier, seed):
             raise MachineryError(f'only {len(behs)} behaviours exported')
         rng.shuffle(behs)
         behs.sort(key=lambda evs: -sum(1 for e in evs if e['e'] in ('exec', 'deliver', 'reorg')))
-        jobs = [{'kind': 'model', 'evs': evs} for evs in behs[:(200 if quick else 1500)]]
+        n = 400 if quick else 3000
+        nflip = lambda evs: sum(1 for e in evs if e.get('flip'))
+
+        def inside(evs):
+            # reads executed / delivered and requests made while a notification waits for its header refresh
+            c, open_ = 0, False
+            for e in evs:
+                if e['e'] == 'nbegin':
+                    open_ = True
+                elif e['e'] == 'notify':
+                    open_ = False
+                elif open_ and e['e'] in ('exec', 'deliver', 'subscribe', 'query'):
+                    c += 1
+            return c
+        def stale_inside(evs):
+            # a read executed before a change that touches the script hash and delivered while a notification waits
+            c, open_, execd, stale = 0, False, set(), set()
+            for e in evs:
+                if e['e'] == 'nbegin':
+                    open_ = True
+                elif e['e'] == 'notify':
+                    open_ = False
+                elif e['e'] == 'exec':
+                    execd.add(e['id'])
+                elif e['e'] in ('block', 'reorg', 'mempool') and (e.get('touch') or e['e'] == 'mempool'):
+                    stale |= execd
+                elif e['e'] == 'deliver':
+                    if open_ and e['id'] in stale:
+                        c += 1
+                    execd.discard(e['id'])
+                    stale.discard(e['id'])
+            return c
+        chosen = behs[:n * 2 // 5]
+        keys = {json.dumps(e, sort_keys=True) for e in chosen}
+        flips = sorted((evs for evs in behs if nflip(evs) and json.dumps(evs, sort_keys=True) not in keys),
+                       key=lambda evs: -(2 * nflip(evs) + sum(1 for e in evs if e['e'] in ('subscribe', 'notify'))))
+        chosen += flips[:n * 3 // 10]
+        keys = {json.dumps(e, sort_keys=True) for e in chosen}
+        ins = sorted((evs for evs in behs if inside(evs) and json.dumps(evs, sort_keys=True) not in keys),
+                     key=lambda evs: (-stale_inside(evs), -inside(evs)))
+        chosen += ins[:n - len(chosen)]
+        out.add(behaviours_with_flag_flips=sum(1 for evs in chosen if nflip(evs)),
+                behaviours_with_reads_inside_a_notification=sum(1 for evs in chosen if inside(evs)))
+        jobs = [{'kind': 'model', 'evs': evs} for evs in chosen]
         for k in range(160 if quick else 2000):
             jobs.append({'kind': 'random', 'ops': random_schedule(rng, rng.randint(15, 60)), 'seed': k})
         with ProcessPoolExecutor(max_workers=14) as ex:
@@ -109,7 +162,8 @@ def check(pid, tier, seed):
                 json.dump(errors[:5], f)
             raise MachineryError(f'{len(errors)} executions failed in the harness, first:\n{errors[0]["error"]}\n{str(errors[0]["job"])[:600]}')
         res, failures = validate_traces(sc, 'ClientTrace', 'ClientTrace.cfg',
-                                        [{k: t[k] for k in ('tree', 'activation', 'steps')} for t in traces], workers=16, timeout=3000)
+                                        [{k: t[k] for k in ('tree', 'activation', 'steps')} for t in traces], workers=16, timeout=3000,
+                                        invariants=CLAUSES[pid])
         nq = sum(1 for t in traces for s in t['steps'] if s.get('ev') == 'quiescent')
         out.add(traces_validated_against_impl=len(traces), trace_states=res.distinct, quiescent_observations=nq,
                 model_behaviours=len([j for j in jobs if j['kind'] == 'model']),
@@ -146,7 +200,8 @@ def replay(doc):
     for s in t['steps']:
         print(json.dumps({k: v for k, v in s.items() if k in ('ev', 'chain', 'pool', 'held', 'early', 'exc')})[:500])
     with Scratch('clr') as sc:
-        _res, failures = validate_traces(sc, 'ClientTrace', 'ClientTrace.cfg', [{k: t[k] for k in ('tree', 'activation', 'steps')}], workers=2)
+        _res, failures = validate_traces(sc, 'ClientTrace', 'ClientTrace.cfg', [{k: t[k] for k in ('tree', 'activation', 'steps')}], workers=2,
+                                         invariants=CLAUSES[doc['property']])
     failures = [f for f in failures if f['clause'] in CLAUSES[doc['property']]]
     if failures:
         print(f"VIOLATION property={doc['property']} replay=(this file) clause={failures[0]['clause']}")
